@@ -7,6 +7,7 @@ import AnyVecModel.Props.Refine
 import AnyVecModel.Proofs.ExecClone
 import AnyVecModel.Proofs.ExecMove
 import AnyVecModel.Proofs.ExecLazy
+import AnyVecModel.Proofs.ExecWithCap
 namespace AnyVec
 namespace RefineMulti
 open World Refine
@@ -653,6 +654,144 @@ theorem new_refines (cfg : Cfg) (w : World) (ms : MSpec) (h : MRel w ms) (ty : N
     exfalso
     cases hbk' : bk <;> simp [VecSt.buildCap, hbk'] at hb <;> (repeat (first | split at hb | cases hb))
 
+/-! ### `with_capacity` -/
+
+/-- **`AnyVec::with_capacity(n)` refines** (growable storages - the only ones that have it): a new last component - empty,
+of the requested element type, with capacity *exactly* `n` - and nothing else changes; or the request cannot be met
+(`n` elements exceed the address space): a panic, and the half-built vector is released again - a `none` component, no
+destructor run, no identity made -/
+theorem with_capacity_refines (cfg : Cfg) (w : World) (ms : MSpec) (h : MRel w ms) (ty : Nat) (bk : Backend) (cl : Bool)
+    (n : Nat) (hr : VecSt.resizable bk = true) :
+    (MRel (step cfg (.withCap ty bk cl n) w).1 ⟨ms.vecs ++ [some ⟨ty, [], n, false, cl⟩], ms.next⟩ ∧
+        (step cfg (.withCap ty bk cl n) w).2 = .ok []) ∨
+    (∃ m, MRel (step cfg (.withCap ty bk cl n) w).1 ⟨ms.vecs ++ [none], ms.next⟩ ∧
+        (step cfg (.withCap ty bk cl n) w).2 = .panic m) := by
+  obtain ⟨hinv, hf, hn, hlen, hsh⟩ := h
+  obtain ⟨hinv', hnub⟩ := Hist.step_inv cfg (.withCap ty bk cl n) w hinv hr trivial
+  have key : ∀ (nv : VecSt), nv.WF → nv.len = 0 → nv.abs = [] → nv.ty = ty → nv.cloneable = cl → nv.live = true →
+      VecSt.resizable nv.bk = true →
+      (∀ d' es, nv.memResize n = .ok (d', es) → ∃ W', step cfg (.withCap ty bk cl n) w = (W', .ok []) ∧
+        W'.vecs = w.vecs ++ [d'] ∧ W'.created = w.created ∧ W'.fault = w.fault) →
+      (∀ m, nv.memResize n = .panic m → ∃ W', step cfg (.withCap ty bk cl n) w = (W', .panic m) ∧
+        W'.vecs = w.vecs ++ [{ nv with live := false }] ∧ W'.created = w.created ∧ W'.fault = none) →
+      (MRel (step cfg (.withCap ty bk cl n) w).1 ⟨ms.vecs ++ [some ⟨ty, [], n, false, cl⟩], ms.next⟩ ∧
+        (step cfg (.withCap ty bk cl n) w).2 = .ok []) ∨
+      (∃ m, MRel (step cfg (.withCap ty bk cl n) w).1 ⟨ms.vecs ++ [none], ms.next⟩ ∧
+        (step cfg (.withCap ty bk cl n) w).2 = .panic m) := by
+    intro nv hnvwf hnvlen hnvabs hnvty hnvcl hnvlive hnvr hok hpn
+    cases hm : nv.memResize n with
+    | ok p =>
+      obtain ⟨d', es⟩ := p
+      left
+      obtain ⟨hcap, _, habs', _, hty', _, _, _, hcl', hbk', hlive'⟩ :=
+        memResize_spec nv d' n es hnvwf (by omega) hm
+      obtain ⟨W', hex, hvecs, hcr, hflt⟩ := hok d' es hm
+      refine ⟨?_, by rw [hex]⟩
+      rw [hex] at hinv' ⊢
+      refine ⟨hinv', by rw [hflt, hf], by rw [hcr, hn], by rw [hvecs]; simp [hlen], ?_⟩
+      refine shows_append w W' ms d' _ hlen hsh hvecs ⟨by rw [hlive', hnvlive], by rw [hty', hnvty], ?_, hcap, ?_, by rw [hcl', hnvcl]⟩
+      · rw [habs', hnvabs]; rfl
+      · rw [hbk', hnvr]; rfl
+    | panic m =>
+      right
+      obtain ⟨W', hex, hvecs, hcr, hflt⟩ := hpn m hm
+      refine ⟨m, ?_, by rw [hex]⟩
+      rw [hex] at hinv' ⊢
+      refine ⟨hinv', hflt, by rw [hcr, hn], by rw [hvecs]; simp [hlen], ?_⟩
+      exact shows_append w W' ms _ none hlen hsh hvecs rfl
+    | ub m =>
+      exfalso
+      have := memResize_notUb nv n hnvr; rw [hm] at this; exact this.elim
+  cases bk with
+  | heap =>
+    exact key ({ ty := ty, size := cfg.size, align := cfg.align, hasDrop := cfg.hasDrop, cloneable := cl, bk := .heap, cap := 0, cells := [], len := 0, gen := 0, live := true } : VecSt) (emptyVec_good _ _ _ _ _ _ _ _ _).wf rfl rfl rfl rfl rfl rfl
+      (fun d' es hm => ExecWithCap.ok_heap cfg w ty n cl d' es hm) (fun m hm => ExecWithCap.panic_heap cfg w ty n cl m hm)
+  | reloc =>
+    exact key ({ ty := ty, size := cfg.size, align := cfg.align, hasDrop := cfg.hasDrop, cloneable := cl, bk := .reloc, cap := 0, cells := [], len := 0, gen := 0, live := true } : VecSt) (emptyVec_good _ _ _ _ _ _ _ _ _).wf rfl rfl rfl rfl rfl rfl
+      (fun d' es hm => ExecWithCap.ok_reloc cfg w ty n cl d' es hm) (fun m hm => ExecWithCap.panic_reloc cfg w ty n cl m hm)
+  | empty => cases hr
+  | stack b => cases hr
+  | stackN a b => cases hr
+
+/-! ### an empty vector for the same elements: `clone_empty()` / `clone_empty_in(builder)` -/
+
+/-- **`clone_empty_in` refines**: a new last component - empty, of the *source's* element type and trait set, on the
+requested storage at the capacity that storage starts with for the source's element layout - and nothing else changes
+(the source keeps its items: nothing is cloned); or the storage cannot be built for this layout: a panic and no change -/
+theorem clone_empty_in_refines (cfg : Cfg) (w : World) (ms : MSpec) (h : MRel w ms) (v : Nat) (bk : Backend) (a : AVec)
+    (hv : ms.vecs[v]? = some (some a)) :
+    ∃ d, w.vecs[v]? = some d ∧
+    ((∃ cap, VecSt.buildCap bk d.size d.align = .ok cap ∧
+        MRel (step cfg (.cloneEmptyIn v bk) w).1
+          ⟨ms.vecs ++ [some ⟨a.ty, [], cap, !VecSt.resizable bk, a.cloneable⟩], ms.next⟩ ∧
+        (step cfg (.cloneEmptyIn v bk) w).2 = .ok []) ∨
+     (∃ m, VecSt.buildCap bk d.size d.align = .panic m ∧ MRel (step cfg (.cloneEmptyIn v bk) w).1 ms ∧
+        (step cfg (.cloneEmptyIn v bk) w).2 = .panic m)) := by
+  obtain ⟨hinv, hf, hn, hlen, hsh⟩ := h
+  have hvlt : v < ms.vecs.length := (List.getElem?_eq_some_iff.mp hv).1
+  obtain ⟨d, hd⟩ : ∃ d, w.vecs[v]? = some d := ⟨w.vecs[v]'(by omega), List.getElem?_eq_getElem (by omega)⟩
+  obtain ⟨oa, hoa, hshow⟩ := hsh v d hd
+  rw [hv] at hoa; cases hoa
+  obtain ⟨hl, hty, habs, hcp, hbk, hcl⟩ := hshow
+  obtain ⟨hinv', hnub⟩ := Hist.step_inv cfg (.cloneEmptyIn v bk) w hinv trivial ⟨d, hd, hl⟩
+  refine ⟨d, hd, ?_⟩
+  cases hb : VecSt.buildCap bk d.size d.align with
+  | ok cap =>
+    left
+    let nv : VecSt := { d with bk := bk, cap := cap, cells := [], len := 0, gen := 0, live := true }
+    have hfin : ∃ W', step cfg (.cloneEmptyIn v bk) w = (W', .ok []) ∧ W'.vecs = w.vecs ++ [nv] ∧
+        W'.created = w.created ∧ W'.fault = none := by
+      by_cases hr : bk = .reloc
+      · refine ⟨{ w with vecs := w.vecs ++ [nv], ev := [Event.memBuild cap].reverse ++ w.ev }, ?_, rfl, rfl, hf⟩
+        simp only [step, cloneEmptyIn, WM.bind_apply, getVec_ok w v d hd hl, hb, WM.lift_ok, WM.get_apply, WM.modify_apply]
+        rw [if_pos hr]
+        simp only [emit, WM.modify_apply, WM.bind_apply, WM.pure_apply]
+        rfl
+      · refine ⟨{ w with vecs := w.vecs ++ [nv] }, ?_, rfl, rfl, hf⟩
+        simp only [step, cloneEmptyIn, WM.bind_apply, getVec_ok w v d hd hl, hb, WM.lift_ok, WM.get_apply, WM.modify_apply]
+        rw [if_neg hr]
+        simp only [WM.bind_apply, WM.pure_apply]
+        rfl
+    obtain ⟨W', hex, hvecs, hcr, hflt⟩ := hfin
+    refine ⟨cap, rfl, ?_, by rw [hex]⟩
+    rw [hex] at hinv' ⊢
+    refine ⟨hinv', hflt, by rw [hcr, hn], by rw [hvecs]; simp [hlen], ?_⟩
+    exact shows_append w W' ms nv _ hlen hsh hvecs ⟨rfl, hty, rfl, rfl, by simp [nv], hcl⟩
+  | panic m =>
+    right
+    have hex : step cfg (.cloneEmptyIn v bk) w = ({ w with fault := none }, .panic m) := by
+      simp only [step, cloneEmptyIn, WM.bind_apply, getVec_ok w v d hd hl, hb, WM.lift]
+    refine ⟨m, rfl, ?_, by rw [hex]⟩
+    rw [hex]
+    rw [hex] at hinv'
+    exact ⟨hinv', rfl, hn, hlen, hsh⟩
+  | ub m =>
+    exfalso
+    have := buildCap_notUb bk d.size d.align; rw [hb] at this; exact this.elim
+
+/-- **`clone_empty` refines**: the same on the source's own kind of storage - so the new vector is growable exactly when
+the source is -/
+theorem clone_empty_refines (cfg : Cfg) (w : World) (ms : MSpec) (h : MRel w ms) (v : Nat) (a : AVec)
+    (hv : ms.vecs[v]? = some (some a)) :
+    ∃ d, w.vecs[v]? = some d ∧
+    ((∃ cap, VecSt.buildCap d.bk d.size d.align = .ok cap ∧
+        MRel (step cfg (.cloneEmpty v) w).1 ⟨ms.vecs ++ [some ⟨a.ty, [], cap, a.fixed, a.cloneable⟩], ms.next⟩ ∧
+        (step cfg (.cloneEmpty v) w).2 = .ok []) ∨
+     (∃ m, VecSt.buildCap d.bk d.size d.align = .panic m ∧ MRel (step cfg (.cloneEmpty v) w).1 ms ∧
+        (step cfg (.cloneEmpty v) w).2 = .panic m)) := by
+  obtain ⟨d, hd, hres⟩ := clone_empty_in_refines cfg w ms h v (match w.vecs[v]? with | some d => d.bk | none => .heap) a hv
+  have hvlt : v < ms.vecs.length := (List.getElem?_eq_some_iff.mp hv).1
+  obtain ⟨oa, hoa, hshow⟩ := h.shows v d hd
+  rw [hv] at hoa; cases hoa
+  obtain ⟨hl, _, _, _, hbk, _⟩ := hshow
+  have e : step cfg (.cloneEmpty v) w = step cfg (.cloneEmptyIn v d.bk) w := by
+    simp only [step, WM.bind_apply, getVec_ok w v d hd hl]
+  simp only [hd] at hres
+  have hfx : (!VecSt.resizable d.bk) = a.fixed := by rw [hbk]; simp
+  rw [hfx] at hres
+  rw [e]
+  exact ⟨d, hd, hres⟩
+
 /-! ### a lazy clone of an element of one vector pushed into another: `u.push(v.at(i).lazy_clone())` -/
 
 /-- what consuming a lazy clone of item `i` of `v` by `u.push(..)` can lead to: one clone - a fresh identity - becomes the
@@ -821,6 +960,9 @@ inductive AOp where
   /-- `u.push(v.at(i).lazy_clone())` (`dp`: how many times the lazy clone was lazily cloned again before) -/
   | pushLazy (v i dp u : Nat)
   | drop (v : Nat)
+  /-- `v.clone_empty()` / `v.clone_empty_in(builder of storage bk)` -/
+  | cloneEmpty (v : Nat)
+  | cloneEmptyIn (v : Nat) (bk : Backend)
   deriving Repr
 
 /-- the script step -/
@@ -831,6 +973,8 @@ def AOp.toOp (w : World) : AOp → Op
   | .move v i u => .remove v i (.pushTo u)
   | .pushLazy v i dp u => .push u (.lazyRef v i dp)
   | .drop v => .dropVec v
+  | .cloneEmpty v => .cloneEmpty v
+  | .cloneEmptyIn v bk => .cloneEmptyIn v bk
 
 /-- what the type system and the borrow checker guarantee about one step, read on the abstract state: the vectors it
 names are alive (and distinct), the operation exists on that storage, `clone()` only with `Cloneable` -/
@@ -841,6 +985,8 @@ def AOk (ms : MSpec) : AOp → Prop
   | .move v _ u => v ≠ u ∧ (∃ a, ms.vecs[v]? = some (some a)) ∧ ∃ au, ms.vecs[u]? = some (some au)
   | .pushLazy v _ _ u => v ≠ u ∧ (∃ a, ms.vecs[v]? = some (some a)) ∧ ∃ au, ms.vecs[u]? = some (some au)
   | .drop v => ∃ a, ms.vecs[v]? = some (some a)
+  | .cloneEmpty v => ∃ a, ms.vecs[v]? = some (some a)
+  | .cloneEmptyIn v _ => ∃ a, ms.vecs[v]? = some (some a)
 
 /-- the abstract machine -/
 inductive AStep (cfg : Cfg) : MSpec → AOp → MSpec → Prop where
@@ -858,6 +1004,19 @@ inductive AStep (cfg : Cfg) : MSpec → AOp → MSpec → Prop where
       (hu : ms.vecs[u]? = some (some au)) (h : LazyStep ms u i a au ms') : AStep cfg ms (.pushLazy v i dp u) ms'
   | drop (ms : MSpec) (v : Nat) (a : AVec) (hv : ms.vecs[v]? = some (some a)) :
       AStep cfg ms (.drop v) ⟨ms.vecs.set v none, ms.next⟩
+  /-- a new empty vector for the same element type and trait set on the requested storage, at a capacity that storage
+  starts with (for the element layout of the source, which the abstract state does not carry); nothing is cloned -/
+  | cloneEmptyIn (ms : MSpec) (v : Nat) (bk : Backend) (a : AVec) (cap : Nat) (hv : ms.vecs[v]? = some (some a))
+      (h : ∃ size align, VecSt.buildCap bk size align = .ok cap) :
+      AStep cfg ms (.cloneEmptyIn v bk) ⟨ms.vecs ++ [some ⟨a.ty, [], cap, !VecSt.resizable bk, a.cloneable⟩], ms.next⟩
+  | cloneEmptyInRefused (ms : MSpec) (v : Nat) (bk : Backend) (a : AVec) (hv : ms.vecs[v]? = some (some a))
+      (h : ∃ size align m, VecSt.buildCap bk size align = .panic m) : AStep cfg ms (.cloneEmptyIn v bk) ms
+  /-- … and on the source's own kind of storage: growable exactly when the source is -/
+  | cloneEmpty (ms : MSpec) (v : Nat) (a : AVec) (cap : Nat) (hv : ms.vecs[v]? = some (some a))
+      (h : ∃ bk size align, VecSt.buildCap bk size align = .ok cap ∧ (!VecSt.resizable bk) = a.fixed) :
+      AStep cfg ms (.cloneEmpty v) ⟨ms.vecs ++ [some ⟨a.ty, [], cap, a.fixed, a.cloneable⟩], ms.next⟩
+  | cloneEmptyRefused (ms : MSpec) (v : Nat) (a : AVec) (hv : ms.vecs[v]? = some (some a))
+      (h : a.fixed = true) : AStep cfg ms (.cloneEmpty v) ms
 
 /-- **one step of a life cycle refines the abstract machine** -/
 theorem astep_refines (cfg : Cfg) (w : World) (ms : MSpec) (h : MRel w ms) (op : AOp) (hok : AOk ms op) :
@@ -887,6 +1046,24 @@ theorem astep_refines (cfg : Cfg) (w : World) (ms : MSpec) (h : MRel w ms) (op :
     obtain ⟨a, hv⟩ := hok
     obtain ⟨hrel, hnub, _⟩ := drop_refines cfg w ms h v a hv
     exact ⟨_, AStep.drop ms v a hv, hrel, hnub⟩
+  | cloneEmptyIn v bk =>
+    obtain ⟨a, hv⟩ := hok
+    obtain ⟨d, _, hres⟩ := clone_empty_in_refines cfg w ms h v bk a hv
+    rcases hres with ⟨cap, hb, hrel, hres⟩ | ⟨m, hb, hrel, hres⟩
+    · exact ⟨_, AStep.cloneEmptyIn ms v bk a cap hv ⟨_, _, hb⟩, hrel, by simp only [AOp.toOp]; rw [hres]; trivial⟩
+    · exact ⟨_, AStep.cloneEmptyInRefused ms v bk a hv ⟨_, _, m, hb⟩, hrel, by simp only [AOp.toOp]; rw [hres]; trivial⟩
+  | cloneEmpty v =>
+    obtain ⟨a, hv⟩ := hok
+    obtain ⟨d, hd, hres⟩ := clone_empty_refines cfg w ms h v a hv
+    obtain ⟨oa, hoa, hshow⟩ := h.shows v d hd
+    rw [hv] at hoa; cases hoa
+    obtain ⟨_, _, _, _, hbk, _⟩ := hshow
+    have hfx : (!VecSt.resizable d.bk) = a.fixed := by rw [hbk]; simp
+    rcases hres with ⟨cap, hb, hrel, hres⟩ | ⟨m, hb, hrel, hres⟩
+    · exact ⟨_, AStep.cloneEmpty ms v a cap hv ⟨_, _, _, hb, hfx⟩, hrel, by simp only [AOp.toOp]; rw [hres]; trivial⟩
+    · refine ⟨_, AStep.cloneEmptyRefused ms v a hv ?_, hrel, by simp only [AOp.toOp]; rw [hres]; trivial⟩
+      rw [← hfx]
+      cases hbk' : d.bk <;> simp [VecSt.buildCap, VecSt.resizable, hbk'] at hb ⊢
 
 /-- run a script -/
 def arun (cfg : Cfg) : World → List AOp → World
@@ -963,6 +1140,13 @@ example : Safe { size := 8, align := 8, hasDrop := true } ⟨[], 0⟩ [.new 0 .h
       | on _ _ a s' hv hop hs' =>
         refine ⟨⟨⟨a.ty, s'.items, s'.cap, s'.fixed, s'.cloneable⟩, by simp⟩, fun _ _ => trivial⟩
   | newRefused _ _ _ m hb => simp [VecSt.buildCap] at hb
+
+/-- non-vacuity of the `clone_empty_in` step: from a growable heap vector an empty `StackN<2, 48>` vector of 8-byte elements
+- fixed capacity 2, same element type, `Cloneable` inherited - and the step is well-typed -/
+example : AStep { size := 8, align := 8, hasDrop := true } ⟨[some ⟨0, [5], 4, false, true⟩], 6⟩ (.cloneEmptyIn 0 (.stackN 2 48))
+      ⟨[some ⟨0, [5], 4, false, true⟩] ++ [some ⟨0, [], 2, !VecSt.resizable (.stackN 2 48), true⟩], 6⟩ ∧
+    AOk ⟨[some ⟨0, [5], 4, false, true⟩], 6⟩ (.cloneEmptyIn 0 (.stackN 2 48)) :=
+  ⟨AStep.cloneEmptyIn _ 0 (.stackN 2 48) ⟨0, [5], 4, false, true⟩ 2 rfl ⟨8, 8, by decide⟩, ⟨_, rfl⟩⟩
 
 end RefineMulti
 end AnyVec
